@@ -257,9 +257,22 @@ func c04Recovery(p *Prog, r *Report, rule string) {
 		}
 		return true
 	})
-	if keptObj == nil || fileObj == nil {
+	// the loop may go over the records by index (for i := range files { file := &files[i] ... }) and keep positions
+	// instead of copies (map[string]int): the record of the iteration is then files[i]
+	idxObj := types.Object(nil)
+	if fileObj == nil && recLoop.Key != nil {
+		idxObj = objOf(info, recLoop.Key)
+	}
+	loopColl := objOf(info, recLoop.X)
+	if keptObj == nil || (fileObj == nil && idxObj == nil) {
 		r.Undecided(rule, kCoreLoad, p.pos(recLoop), "kept-records map not identified")
 		return
+	}
+	keptIsIndex := false
+	if mt, ok := keptObj.Type().Underlying().(*types.Map); ok {
+		if bt, ok := mt.Elem().Underlying().(*types.Basic); ok && bt.Info()&types.IsInteger != 0 {
+			keptIsIndex = true
+		}
 	}
 	r.Check(pubRange == keptObj, rule, kCoreLoad+"#publishes-kept-only", p.pos(pubLoop), "publication loop ranges over the kept records",
 		"the publication loop does not range over the records kept by the recovery rule")
@@ -268,6 +281,10 @@ func c04Recovery(p *Prog, r *Report, rule string) {
 	ast.Inspect(pubLoop.Body, func(x ast.Node) bool {
 		if c, ok := x.(*ast.CallExpr); ok && p.callIs(fi.Pkg, c, kStoreToTx) && len(c.Args) == 2 {
 			if objOf(info, c.Args[1]) == objOf(info, pubLoop.Value) {
+				pubOK = true
+			}
+			// the kept position: storeToTx(mainTx, files[i]) with i the value of the loop over the kept positions
+			if ix, isIx := ast.Unparen(c.Args[1]).(*ast.IndexExpr); isIx && keptIsIndex && objOf(info, ix.Index) == objOf(info, pubLoop.Value) {
 				pubOK = true
 			}
 		}
@@ -325,14 +342,83 @@ func c04Recovery(p *Prog, r *Report, rule string) {
 		if !c.hasPrev {
 			prevVal.Fields["Seq"] = intVal(0)
 		}
+		fileVal.Tag, prevVal.Tag = "file", "prev"
 		env := &Env{P: p, Pkg: fi.Pkg, Vars: map[types.Object]*Val{}, Body: nil}
+		semKept := false
+		var semDels []string
+		tagOf := func(v *Val) string {
+			for v != nil && v.Ptr != nil {
+				v = v.Ptr
+			}
+			if v == nil {
+				return "?"
+			}
+			switch v.Tag {
+			case "file", "prev":
+				return v.Tag
+			case "i":
+				return "file"
+			case "prev-index":
+				return "prev"
+			}
+			return "?"
+		}
+		env.MapOk = func(env *Env, ix *ast.IndexExpr) (*Val, bool, bool) {
+			if objOf(info, ix.X) != keptObj {
+				return nil, false, false
+			}
+			if keptIsIndex {
+				return &Val{Tag: "prev-index"}, c.hasPrev, true
+			}
+			return prevVal, c.hasPrev, true
+		}
+		env.MapStore = func(env *Env, ix *ast.IndexExpr, v *Val) bool {
+			if objOf(info, ix.X) != keptObj {
+				return false
+			}
+			if tagOf(v) == "file" {
+				semKept = true
+			}
+			return true
+		}
 		env.Hook = func(env *Env, e ast.Expr) (*Val, bool) {
+			if id, ok := e.(*ast.Ident); ok && env.Pkg == fi.Pkg && idxObj != nil && objOf(info, id) == idxObj {
+				return &Val{Tag: "i"}, true
+			}
+			if ix, ok := e.(*ast.IndexExpr); ok && env.Pkg == fi.Pkg && loopColl != nil && objOf(info, ix.X) == loopColl {
+				if iv, err := env.Eval(ix.Index); err == nil && iv != nil {
+					switch iv.Tag {
+					case "i":
+						return fileVal, true
+					case "prev-index":
+						return prevVal, true
+					}
+				}
+			}
+			if c2, ok := e.(*ast.CallExpr); ok && env.Pkg == fi.Pkg {
+				if id, isId := c2.Fun.(*ast.Ident); isId && id.Name == "append" && len(c2.Args) >= 2 && objOf(info, c2.Args[0]) == delObj {
+					for _, a := range c2.Args[1:] {
+						if v, err := env.Eval(a); err == nil {
+							semDels = append(semDels, tagOf(v))
+						} else {
+							semDels = append(semDels, types.ExprString(a))
+						}
+					}
+					return &Val{Tag: "list"}, true
+				}
+			}
 			if id, ok := e.(*ast.Ident); ok && env.Pkg == fi.Pkg {
 				switch objOf(info, id) {
 				case fileObj:
+					if fileObj == nil {
+						break
+					}
 					return fileVal, true
 				case prevObj:
 					if prevObj != nil {
+						if keptIsIndex {
+							return &Val{Tag: "prev-index"}, true
+						}
 						return prevVal, true
 					}
 				case okObj:
@@ -378,6 +464,15 @@ func c04Recovery(p *Prog, r *Report, rule string) {
 					}
 				}
 			}
+		}
+		// what the evaluation itself saw (records named by position, kept positions instead of copies)
+		if semKept {
+			kept = true
+		}
+		if fileObj == nil || keptIsIndex {
+			dels = semDels
+		} else if len(semDels) > 0 && (len(dels) == 0 || strings.Contains(strings.Join(dels, ","), "[") || strings.Contains(strings.Join(dels, ","), "*")) {
+			dels = semDels
 		}
 		rows = append(rows, map[string]any{"case": c.name, "kept": kept, "deleted": dels})
 		if c.dontCare {
